@@ -2,6 +2,8 @@ mod c08;
 mod c09;
 mod c10;
 mod c11;
+mod c16;
+mod clicheck;
 mod c18;
 pub mod c19;
 mod c19p;
@@ -17,6 +19,8 @@ fn main() {
         "C09" => c09::main(&args),
         "C10" => c10::main(&args),
         "C11" => c11::main(&args),
+        "C16" => c16::main(&args),
+        "C17" => clicheck::main_c17(&args),
         "C18" => c18::main(&args),
         "C19" => c19::main(&args),
         "C19P" => c19p::main(&args),
